@@ -5,7 +5,10 @@ from .base import Prop
 from ..lifecycle import Episode
 from .. import gen
 
-MEMBERS = dict((s.name, int(s)) for s in _signal.Signals)
+# every name of the signal module that denotes a signal, aliases included
+# (SIGCLD, SIGIOT, SIGPOLL: iterating the enumeration gives canonical
+# members only)
+MEMBERS = dict((n, int(v)) for n, v in _signal.Signals.__members__.items())
 NON_SIGNAL_NAMES = [n for n in dir(_signal)
                     if n.isupper() and n not in MEMBERS and
                     isinstance(getattr(_signal, n), int)]
